@@ -41,7 +41,18 @@ func (p propSpec) timeoutMs(tier int) int {
 	return 10000
 }
 func (p propSpec) maxPaths(tier int) int            { return p.MaxPathsT[tier] }
-func (p propSpec) Deadline(tier int) time.Duration { return p.DeadlineT[tier] }
+// Deadline per harness: a harness that has not finished by then is truncated
+// (violations found so far are still replayed and reported; otherwise the
+// check exits 2, bound hit — never success).
+func (p propSpec) Deadline(tier int) time.Duration {
+	if p.DeadlineT[tier] != 0 {
+		return p.DeadlineT[tier]
+	}
+	if tier == 1 {
+		return 90 * time.Minute
+	}
+	return 6 * time.Minute
+}
 
 const techSX = "symbolic execution of the real code's go/ssa (GoSX) with SMT (z3) deciding every branch and assertion over all values of the symbolic inputs within the stated bounds; counterexamples replayed natively"
 
